@@ -25,7 +25,11 @@ RULE = ("every configuration (class x constructor options x parameter/constant l
         "in the documented domain, in the conditioning region the property states and an independent "
         "textbook float64 reference round-trips there to 1e-8; judged points must round-trip to 1e-6 "
         "relative (NaN / exception = violation). Cases are distinct lattice points of distinct "
-        "configurations (nested enumeration).")
+        "configurations (nested enumeration). "
+        "OBJECT HISTORIES: per class, every pair of configurations (X = defaults with <= 1 deviation, Y = X with one "
+        "parameter or constant moved to another lattice value) x f1, f2 in {forward, backward, backward_censored} x route of the change {attribute, "
+        "item, params/constants item, values vector} (+ f1 made on another object of the class): f1 at X, change by name, "
+        "f2 at Y on the same array object must equal, bit for bit, f2 of a fresh object built at Y.")
 ASSUMPTIONS = [
     "scope is decided by the reference model only (domain, stated conditioning region, reference round trip <= 1e-8); implementation output never filters a case",
     "relative accuracy is measured against |x| (|y|); at exactly 0 against the natural unit of the class (nu, exp(logdelta), xmax, 1/scale)",
@@ -54,7 +58,11 @@ def bound_text(tier, seed):
 
 
 def units(tier, seed):
-    return H.make_units(tier, seed, PER_UNIT.get(tier, 12))
+    us = H.make_units(tier, seed, PER_UNIT.get(tier, 12))
+    # histories of one object: used at X, one parameter / constant changed by name, used again (see _transforms.py)
+    us += [{"kind": "history", "cls": cls, "tier": tier, "seed": seed} for cls in H.CLASSES
+           if cls not in ("Identity", "Softmax")]
+    return us
 
 
 # ---------------------------------------------------------------------------
@@ -426,6 +434,10 @@ def run_unit(unit, ctx):
         ctx.case(False, n=0, sample={"softmax_d": unit["d"], "tier": tier, "seed": seed})
         check_softmax(ctx, T, unit["d"], tier, seed)
         return
+    if unit.get("kind") == "history":
+        ctx.case(False, n=0, sample={"history-unit": cls, "tier": tier, "seed": seed})
+        H.run_history(ctx, T, cls, tier, seed, ['forward', 'backward', 'backward_censored'])
+        return
     first = True
     for cfg in H.unit_configs(unit):
         if first:
@@ -438,6 +450,8 @@ def replay(case):
     from mc.explore import Result
     from hydrodiy.stat import transform as T
     ctx = Result()
+    if "history" in case:
+        return H.replay_history(T, case)
     if "softmax_d" in case:
         check_softmax(ctx, T, case["softmax_d"], case["tier"], case["seed"])
     else:
